@@ -190,6 +190,7 @@ def main():
         families=dict(ctx.families), distribution={k: v for k, v in ctx.dist.most_common(60)},
         model_vs_impl_disagreements=len(ctx.disagreements), impl_vs_oracle_failures=len(ctx.failures),
         known_finding_hits=dict(known_hits), notes=ctx.notes[:10])
+    common.LEVEL = "exploration" if all(t.endswith(".placeholder") for t in ob["obligations"]) else "proof"
     write_evidence(pid, tier, seed, cov, time.time() - t0, nviol + (1 if rc and not nviol else 0),
                    spec.get("assumptions", []) + ["little-endian 64-bit host", "model-code tie is sampled"])
     print(f"{pid} {tier}: obligations {len(ob['discharged'])}/{len(ob['obligations'])} discharged, "
